@@ -147,9 +147,12 @@ def needed_fixtures(pd, force):
 
 def c03_oracle(case, r):
     hits = []
-    if (r.get("outcome") or ["?"])[0] != "returned":
-        return hits        # C01's business
-    pd, trace = case["project"], r.get("trace") or []
+    oc = r.get("outcome") or ["?"]
+    if oc[0] not in ("returned", "raised"):
+        return hits        # hangs are C01's business
+    if oc[0] == "raised" and ("fixture" in (oc[2] if len(oc) > 2 else "").lower()):
+        hits.append(("run-raised-about-a-fixture", "the run raised %s: %s" % (oc[1], [l for l in oc[2].strip().split("\n") if "ixture" in l][-1][:200])))
+    pd, trace = case.get("scheduled_project") or case["project"], r.get("trace") or []
     force = bool(case.get("options", {}).get("force_disabled"))
     fx = _fixture_index(pd)
     cur = {}                      # thread -> current task label (tuple)
@@ -637,11 +640,16 @@ def _suite_of(key):
 def c07_oracle(case, r, stream=None, sequential=None):
     """The grammar of DESIGN.md A.1 on the stream delivered to a backend."""
     hits = []
-    if (r.get("outcome") or ["?"])[0] != "returned":
+    oc = r.get("outcome") or ["?"]
+    if oc[0] not in ("returned", "raised"):
         return hits
     evs = stream if stream is not None else (r.get("events") or [])
+    if oc[0] == "raised":
+        # the run was aborted by an error (e.g. the report writer rejected the stream): judge the stream that was put on the queue
+        hits.append(("run-aborted:" + oc[1], "the run was aborted by %s: %s" % (oc[1], (oc[2] if len(oc) > 2 else "").strip().split("\n")[-1][:160])))
+        evs = [a[2] for a in (r.get("trace") or []) if a[1] == "fire"]
     if not evs:
-        return [("empty-stream", "the backend received nothing")]
+        return hits + [("empty-stream", "the backend received nothing")]
     if evs[0][0] != "test_session_start":
         hits.append(("session-start-not-first", "the first event is %s" % evs[0][0]))
     if evs[-1][0] != "test_session_end":
@@ -984,3 +992,54 @@ def first_difference(a, b, path="report"):
                 return d
         return None
     return None if a == b else "%s: %r vs %r" % (path, a, b)
+
+
+# ---------------------------------------------------------------------------------------------- structure of the task graph
+def graph_structure_violations(graph):
+    """Ordering requirements that the implementation's task graph must enforce (DESIGN 4.1: begin_before_all, end_after_all,
+    teardown_after_consumers, setup_before_tests). Returns [(kind, task label A, task label B)] meaning 'B does not wait for A'.
+    Used to pick the projects on which a schedule search is worthwhile when a correspondence broke."""
+    n = len(graph)
+    deps = [set(t["succ"]) | set(t["compl"]) for t in graph]
+    reach = [None] * n
+
+    def closure(i):
+        if reach[i] is None:
+            reach[i] = set()
+            for d in deps[i]:
+                if 0 <= d < n:
+                    reach[i].add(d)
+                    reach[i] |= closure(d)
+        return reach[i]
+    import sys
+    sys.setrecursionlimit(10000)
+    idx = {tuple(t["label"]): i for i, t in enumerate(graph)}
+    out = []
+
+    def in_subtree(path, suite):
+        return path == suite or path.startswith(suite + ".")
+    for i, t in enumerate(graph):
+        k, p = t["label"]
+        if k == "TestTask":
+            s = p.rsplit(".", 1)[0]
+            for need in (("SuiteBeginningTask", s), ("SuiteInitializationTask", s), ("TestSessionSetupTask", "")):
+                if need in idx and idx[need] not in closure(i):
+                    out.append(("test-does-not-wait-for-setup", list(need), t["label"]))
+            for waiter in (("SuiteTeardownTask", s), ("SuiteEndingTask", s), ("TestSessionTeardownTask", "")):
+                if waiter in idx and i not in closure(idx[waiter]):
+                    out.append(("teardown-or-end-does-not-wait-for-test", t["label"], list(waiter)))
+        if k == "SuiteBeginningTask":
+            for j, u in enumerate(graph):
+                if j != i and u["label"][0] != "TestSessionSetupTask" and u["label"][0] != "TestSessionTeardownTask":
+                    up = u["label"][1] if u["label"][0] != "TestTask" else u["label"][1].rsplit(".", 1)[0]
+                    if in_subtree(up, p) and i not in closure(j):
+                        out.append(("task-does-not-wait-for-suite-begin", t["label"], u["label"]))
+        if k == "SuiteEndingTask":
+            for j, u in enumerate(graph):
+                if j != i and u["label"][0] not in ("TestSessionSetupTask", "TestSessionTeardownTask"):
+                    up = u["label"][1] if u["label"][0] != "TestTask" else u["label"][1].rsplit(".", 1)[0]
+                    if in_subtree(up, p) and j not in closure(i):
+                        out.append(("suite-end-does-not-wait-for-task", u["label"], t["label"]))
+            if ("TestSessionTeardownTask", "") in idx and i not in closure(idx[("TestSessionTeardownTask", "")]):
+                out.append(("session-teardown-does-not-wait-for-suite-end", t["label"], ["TestSessionTeardownTask", ""]))
+    return out
